@@ -15,8 +15,8 @@ import lifecycle_common as lc
 
 LEVEL = "model_checking"
 
-FAMILIES = ("hdr", "hdrl", "path", "redir", "direct", "tmo", "pfc")
-ACT_DEFECTS = ("AppendDefaultLeaks", "UnknownVarIsVariable", "MissingVarDash", "PercentTrimmed", "PfcRouteFallsBackToVhost", "RewriteCaseSensitive", "VhostBeforeRoute", "RouterBeforeVhost", "AppendNoSeparator", "RemoveBeforeAdd", "RegexOverPrefix",
+FAMILIES = ("hop", "hdr", "hdrl", "path", "redir", "direct", "tmo", "pfc")
+ACT_DEFECTS = ("RewriteSkippedWhenMarked", "RewriteSkippedWhenMarked_hop", "AppendDefaultLeaks", "UnknownVarIsVariable", "MissingVarDash", "PercentTrimmed", "PfcRouteFallsBackToVhost", "RewriteCaseSensitive", "VhostBeforeRoute", "RouterBeforeVhost", "AppendNoSeparator", "RemoveBeforeAdd", "RegexOverPrefix",
                "PrefixRewriteKeepsPrefix", "AutoHostOverHostRewrite", "AutoHostBeforeMutation", "RedirectKeepsPort",
                "RedirectDropsQuery", "RedirectDefault302", "HeaderOverProtocol", "TryNotDisabled")
 RETRY_DEFECTS = ("FinalizeOnRetry", "RetryOnOverflow", "RetryOnIgnored", "StatusListIgnored", "BudgetOffByOne", "BudgetIsNumRetries",
@@ -46,6 +46,8 @@ def act_signature(e, kind):
 def act_signature1(e, kind):
     c = e.get("c", {})
     ev = e["ev"]
+    if ev == "hop":
+        return "C17:two-hops:%s" % kind.split(":")[-1]
     if ev == "pfc":
         return "C17:per-filter-config:%s" % kind
     if ev == "hdr":
@@ -58,12 +60,15 @@ def act_signature1(e, kind):
             what = "prefix_rewrite" if c.get("pr") else ("regex_rewrite" if c.get("rr") != "none" else "plain")
         else:
             what = "any"
-        return "C17:path:%s:rule=%s:%s%s" % (kind, c.get("rule"), what, ":path-in-other-case" if c.get("ci") else "")
+        mk = c.get("mk", "none")
+        return "C17:path:%s:rule=%s:%s%s%s" % (kind, c.get("rule"), what, ":path-in-other-case" if c.get("ci") else "",
+                                               ":request-carries-" + mk if mk != "none" else "")
     if ev == "redir":
         if kind == "redirect-status":
             return "C17:redirect:%s:code=%s" % (kind, "default" if not c.get("code") else "configured")
         what = [k for k in ("scheme", "rhost", "rpath") if c.get(k)]
-        return "C17:redirect:%s:%s:port=%s" % (kind, "+".join(what) or "bare", c.get("host", {}).get("p") or "none")
+        return "C17:redirect:%s:%s:port=%s%s" % (kind, "+".join(what) or "bare", c.get("host", {}).get("p") or "none",
+                                                 ":request-carries-xmosn" if c.get("mk", "none") != "none" else "")
     if ev == "direct":
         return "C17:direct:%s:body=%s" % (kind, "yes" if c.get("body") else "no")
     if ev == "tmo":
@@ -148,7 +153,7 @@ def run(ctx):
     rng.shuffle(perm)
     act = [menu[0]]
     hdr_lines = [dict(fam="hdr", c=c, rc=hdr_cases[perm[i]]) for i, c in enumerate(hdr_cases)]
-    rest = fam["path"] + fam["redir"] + fam["direct"] + fam["tmo"] + fam["pfc"]
+    rest = fam["path"] + fam["redir"] + fam["direct"] + fam["tmo"] + fam["pfc"] + fam["hop"]
     # protocol dimension: a VERIF_SEED sample of the header and rewrite cases (and the per_filter_config cases) is repeated
     # through an HTTP/2 listener and cluster; the HTTP/2 upstream answers with a trailer
     h2 = [dict(x, proto="h2") for x in rng.sample(hdr_lines, min(len(hdr_lines), 300 if q else 1500))]
